@@ -190,6 +190,31 @@ def run_case(spec, inputs=None):
                 V(f"C08/called-contest-draws-influence-bounds/{mode}", f"alpha={a}: bounds became [{est[1]},{est[2]}] "
                   f"(were [{row[f'lower_{a}']},{row[f'upper_{a}']}]) after replacing only the draws of called "
                   f"contests", called=[names2[i] for i in called_idx])
+        # (f) a second summary request on the same client (other weights, base and levels) must be judged on its own:
+        # nothing of the first request may survive in the returned frame
+        weights2 = None if (weights is not None and rng.random() < 0.3) else {names2[j]: int(rng.integers(1, 40))
+                                                                            for j in rng.permutation(n)}
+        base2 = base + float(gen.choice(rng, [1, 7, 100]))
+        alphas2 = list(dict.fromkeys([alphas[-1]] + [round(float(rng.uniform(0.1, 0.97)), 3)]))
+        try:
+            ns2 = client.get_national_summary_votes_estimates(copy.deepcopy(weights2), base2, alphas2)
+            row2 = ns2.iloc[0].to_dict()
+            out["counters"]["repeated_summary_requests"] = out["counters"].get("repeated_summary_requests", 0) + 1
+            extra_cols = sorted(c_ for c_ in ns2.columns if c_ not in (["estimand", "agg_pred"] + [f"{b}_{a}" for a in alphas2
+                                                                                                 for b in ("lower", "upper")]))
+            if extra_cols:
+                V("C08/repeated-request/stale-columns", f"second request for levels {alphas2} returned columns "
+                  f"{extra_cols} of the first request")
+            for a in alphas2:
+                direct = model.get_national_summary_estimates(copy.deepcopy(weights2), base2, a)["margin"]
+                got2 = [row2.get("agg_pred"), row2.get(f"lower_{a}"), row2.get(f"upper_{a}")]
+                if any(g is None or abs(float(g) - float(d_)) > 1e-9 for g, d_ in zip(got2, direct)):
+                    V("C08/repeated-request/stale-values", f"second request (base {base2}, alpha {a}) returned "
+                      f"{got2} but the model computes {direct}; first request was {row}")
+                    break
+        except Exception as e:  # noqa: BLE001
+            V(f"C08/repeated-request/raised/{type(e).__name__}", f"second summary request raised {type(e).__name__}: "
+              f"{str(e)[:200]}")
         # (e) wrong-size weights
         bad = {f"X{j}": 1 for j in range(n + 1)}
         try:
